@@ -20,7 +20,8 @@ from ..cfg import CFG
 from ..core import AnalysisError
 from ..defuse import DefUse, Terms, show, specialise, walk_term
 from ..defuse import key as tkey
-from ..tutil import TTUnknown, lin, np_call, strip_conv, tt_eval
+from ..tutil import (TTUnknown, bound_args, lin, np_call, strip_conv,
+                     tt_eval)
 
 EXPLANATION = (
     "Static analysis of mokapot.model.Model.fit, _find_hyperparameters and "
@@ -304,8 +305,10 @@ def _check_prediction(ctx, df, fit):
     pname = [p for p in df.params if p != "self"][0]
     ok = False
     why = show(rt, 200)
-    if rt[0] == "call" and rt[1] == GS and len(rt[2]) == 2:
-        est, feat = rt[2]
+    b = bound_args(prog, rt) if rt[0] == "call" and rt[1] == GS else None
+    gsp = prog.func(GS).params
+    if b is not None and set(b) == set(gsp[:2]):
+        est, feat = b[gsp[0]], b[gsp[1]]
         c = feat
         if c[0] == "mcall" and c[2] == "transform" and tkey(c[1]) == \
                 "self.scaler" and c[3]:
